@@ -5,7 +5,7 @@
 # Prints DETECTED / MISSED / NOT-A-MUTANT.
 id=$1; patch=$(readlink -f "$2"); tier=${3:-quick}
 export GOFLAGS=-mod=mod GOPROXY=off GOSUMDB=off GOTOOLCHAIN=local
-wt=/tmp/verif_mut.$$
+wt=/tmp/verif_mut.${MUT_SLOT:-$$}   # MUT_SLOT: a fixed scratch path per parallel worker keeps the Go build cache hitting
 git -C /repo worktree add -q --detach "$wt" HEAD || exit 2
 trap 'git -C /repo worktree remove --force "$wt" 2>/dev/null; rm -rf "$wt"' EXIT
 cd "$wt" || exit 2
